@@ -1,12 +1,12 @@
 package an
 
 import (
-	"strings"
 	"fmt"
 	"go/constant"
 	"go/token"
 	"go/types"
 	"math"
+	"strings"
 
 	"golang.org/x/tools/go/ssa"
 )
@@ -80,14 +80,16 @@ func (s State) clone() State {
 }
 
 type loopCtx struct {
-	header  *ssa.BasicBlock
-	blocks  map[*ssa.BasicBlock]bool
-	T       int64 // trip count; -1 unknown
-	sym     map[*Obj]bool
-	x0      map[*Obj]Content
-	mutated map[*Obj]bool
-	closed  map[string]closedForm // X-symbol name -> closed form
-	refs    map[string]Layout
+	header     *ssa.BasicBlock
+	blocks     map[*ssa.BasicBlock]bool
+	T          int64 // trip count; -1 unknown
+	sym        map[*Obj]bool
+	x0         map[*Obj]Content
+	mutated    map[*Obj]bool
+	closed     map[string]closedForm // X-symbol name -> closed form
+	refs       map[string]Layout
+	lenOf      string // the loop runs its counter 0,1,2,… up to the length of this container
+	lenOfFirst int64  // first value of that counter
 }
 
 type closedForm struct {
@@ -149,12 +151,12 @@ type Eval struct {
 	refs        map[string]Layout // loop-invariant values referenced at offsets affine in t
 	mapGlobals  []*Obj
 	Reads       []ReadInfo
-	errObj      map[ssa.Instruction]*Obj // per read call: what is known about its error on the current path
-	lastRets    []retRec                 // the individual returns of the function evaluated last
-	lkObj       map[ssa.Instruction]*Obj // per word lookup: did it hit on the current path?
-	sites       []ssa.Instruction        // call sites of the module functions being evaluated (innermost last)
+	errObj      map[ssa.Instruction]*Obj                // per read call: what is known about its error on the current path
+	lastRets    []retRec                                // the individual returns of the function evaluated last
+	lkObj       map[ssa.Instruction]*Obj                // per word lookup: did it hit on the current path?
+	sites       []ssa.Instruction                       // call sites of the module functions being evaluated (innermost last)
 	alts        map[ssa.Instruction]map[*Obj]altContent // per guarded call: object contents on its success / failure return
-	LoopHits    map[ssa.Instruction]bool // per word lookup inside a loop: every path to the back edge passed its hit edge
+	LoopHits    map[ssa.Instruction]bool                // per word lookup inside a loop: every path to the back edge passed its hit edge
 }
 
 type LoopInfo struct {
@@ -399,6 +401,57 @@ func (e *Eval) evalFunc(fn *ssa.Function, args []AV, bindings []AV, st State, de
 			}
 		}
 		out = joinStates(out, r.st)
+	}
+	// byte slices returned on different paths are different objects (or none); if what they
+	// hold is the same on every path, the result is that content (as a value)
+	if len(fr.rets) > 1 {
+		for k := range res {
+			var common *BytesV
+			same := true
+			sameObj := true
+			var firstObj *Obj
+			for i, r := range fr.rets {
+				if k < len(r.vals) {
+					if bv, ok := r.vals[k].(BytesV); ok {
+						if i == 0 {
+							firstObj = bv.Obj
+						} else if bv.Obj != firstObj {
+							sameObj = false
+						}
+					}
+				}
+			}
+			if sameObj {
+				continue // one and the same object on every path: keep its identity
+			}
+			for _, r := range fr.rets {
+				if k >= len(r.vals) {
+					same = false
+					break
+				}
+				bv, ok := r.vals[k].(BytesV)
+				if !ok {
+					same = false
+					break
+				}
+				rv := stripObj(e.resolveBytes(bv, r.st))
+				rv.Src = ""
+				if common == nil {
+					c := rv
+					common = &c
+				} else if common.String() != rv.String() {
+					same = false
+					break
+				}
+			}
+			if same && common != nil && common.HasVal && common.LenKnown {
+				if _, already := res[k].(BytesV); !already || res[k].String() != common.String() {
+					c := *common
+					c.Src = "same content on every return path"
+					res[k] = c
+				}
+			}
+		}
 	}
 	e.lastRets = fr.rets
 	if len(fr.rets) == 0 {
@@ -1212,6 +1265,46 @@ func (e *Eval) refinements(fr *frame, b *ssa.BasicBlock) map[ssa.Value]AV {
 		apply(r.X, r.Op, r.Y)
 		apply(r.Y, flipOp(r.Op), r.X)
 	}
+	// `offset := length - len(b)` with b the minimal big-endian bytes of a value that fits
+	// `length` bytes, on the edge where offset <= 0: b already has the full length, so it is
+	// the fixed-width encoding (the early return of a padByteSlice helper)
+	for _, r := range rels {
+		for _, side := range []struct {
+			x  ssa.Value
+			op token.Token
+			y  ssa.Value
+		}{{r.X, r.Op, r.Y}, {r.Y, flipOp(r.Op), r.X}} {
+			xv, ok := e.val(fr, side.x).(IntV)
+			if !ok || xv.Kind != ikMinLen || xv.ML == nil || xv.ML.Coef != -1 {
+				continue
+			}
+			c, isC := intConst(side.y)
+			if !isC {
+				continue
+			}
+			// x = Const - |Min|; the relation must force |Min| >= Const
+			forces := (side.op == token.LEQ && c <= 0) || (side.op == token.LSS && c <= 1) || (side.op == token.EQL && c == 0)
+			w, okw := xv.ML.Val.Width()
+			if !forces || !okw || (w+7)/8 > xv.ML.Const {
+				continue
+			}
+			// find the slice whose length is subtracted
+			bo, isBin := side.x.(*ssa.BinOp)
+			if !isBin || bo.Op != token.SUB {
+				continue
+			}
+			sl := lenOperand(bo.Y)
+			if sl == nil {
+				continue
+			}
+			if bv, ok := e.val(fr, sl).(BytesV); ok && bv.Min && bv.HasVal {
+				if over == nil {
+					over = map[ssa.Value]AV{}
+				}
+				over[sl] = BytesV{LenKnown: true, Len: K(xv.ML.Const), HasVal: true, Val: xv.ML.Val, Src: "minimal bytes known to have the full length"}
+			}
+		}
+	}
 	// what is learnt about one len(v) holds for every len(v) of the same slice or string value
 	for v, a := range over {
 		if base := lenOperand(v); base != nil {
@@ -1359,6 +1452,24 @@ func lenOperand(v ssa.Value) ssa.Value {
 	return nil
 }
 
+// everyIteration: block b is executed in every iteration of the loop (it dominates every
+// back edge).
+func everyIteration(b *ssa.BasicBlock, lp *loopCtx) bool {
+	if lp == nil || lp.header == nil {
+		return false
+	}
+	n := 0
+	for _, p := range lp.header.Preds {
+		if lp.blocks[p] {
+			n++
+			if !b.Dominates(p) {
+				return false
+			}
+		}
+	}
+	return n > 0
+}
+
 // relSlice: the dominating comparisons establish 0 <= lo <= hi <= len(x.X) for a slice
 // expression whose low bound is absent or a non-negative constant.
 func (e *Eval) relSlice(fr *frame, x *ssa.Slice, lo, hi IntV) bool {
@@ -1466,6 +1577,12 @@ func (e *Eval) relBound(fr *frame, b *ssa.BasicBlock, idx, base ssa.Value, idxAV
 			if sameLen[w] {
 				sameLen[u] = true
 			}
+		}
+	}
+	if mk, ok := base.(*ssa.MakeSlice); ok {
+		// base = make([]T, len(u)): as long as u
+		if u := lenOperand(mk.Len); u != nil {
+			sameLen[u] = true
 		}
 	}
 	isLenOfBase := func(v ssa.Value) bool {
@@ -2043,6 +2160,9 @@ func (e *Eval) makeSlice(fr *frame, x *ssa.MakeSlice, st State) AV {
 			}
 			if n.Kind == ikMinLen {
 				bv.LenMin = n.ML
+			}
+			if n.Kind == ikRange && n.LenOf != "" {
+				bv.LenSym = n.LenOf
 			}
 			e.setContentFresh(st, o, BufC{bv})
 			r := bv
@@ -2701,6 +2821,11 @@ func (e *Eval) loadElem(fr *frame, x ssa.Instruction, el *ElemRef, st State) AV 
 				return ac.Elems[c]
 			}
 		}
+		if ac, ok := st[b.O].(*ArrC); ok && ac.Top == "" && len(ac.Stores) == 0 && len(ac.Elems) > 0 && el.Idx.Kind == ikLin && !el.Idx.L.Const() {
+			// a fully written slice read back in a later loop: the element of that iteration
+			snap := *ac
+			return StrV{Kind: skArrElem, Arr: &snap, Idx: el.Idx}
+		}
 	}
 	if v, ok := x.(ssa.Value); ok {
 		return e.topOf(v.Type(), "element load")
@@ -2724,6 +2849,11 @@ func (e *Eval) lenOf(fr *frame, a AV, st State) IntV {
 		if v.LenMin != nil {
 			return IntV{Kind: ikMinLen, ML: v.LenMin}
 		}
+		if v.LenSym != "" {
+			n := RangeInt(0, math.MaxInt32)
+			n.LenOf = v.LenSym
+			return n
+		}
 		if v.Param != nil && e.Ctx != nil && e.Ctx.SizeRange != nil && e.Ctx.SizeKind == "L" {
 			return RangeInt(e.Ctx.SizeRange[0], e.Ctx.SizeRange[1])
 		}
@@ -2731,7 +2861,11 @@ func (e *Eval) lenOf(fr *frame, a AV, st State) IntV {
 	case *ListV:
 		return CInt(int64(len(v.Elems)))
 	case *TokensV:
-		return v.N
+		n := v.N
+		if n.Kind == ikRange {
+			n.LenOf = fmt.Sprintf("tokens@%p", v)
+		}
+		return n
 	case SliceV:
 		if ac, ok := st[v.O].(*ArrC); ok {
 			return ac.N
@@ -2754,7 +2888,9 @@ func (e *Eval) lenOf(fr *frame, a AV, st State) IntV {
 		if v.Kind == skConst {
 			return CInt(int64(len(v.S)))
 		}
-		return RangeInt(0, math.MaxInt32)
+		n := RangeInt(0, math.MaxInt32)
+		n.LenOf = "str:" + v.String()
+		return n
 	case NilV:
 		return CInt(0)
 	case MapV:
@@ -2868,6 +3004,12 @@ func (e *Eval) index(fr *frame, x *ssa.Index, st State) AV {
 		if c, ok := idx.Const(); ok && c >= 0 && c < int64(len(s.S)) {
 			return CInt(int64(s.S[c]))
 		}
+	}
+	if s, ok := base.(StrV); ok {
+		// one byte of a string
+		b := RangeInt(0, 255)
+		b.SB = &StrByte{S: s, Idx: idx}
+		return b
 	}
 	return e.loadElem(fr, x, &ElemRef{Base: base, Idx: idx}, st)
 }
@@ -3016,7 +3158,9 @@ func (e *Eval) lookup(fr *frame, x *ssa.Lookup, st State) AV {
 	if s, ok := m.(StrV); ok { // string indexing
 		idx, _ := k.(IntV)
 		e.boundsCheck(fr, x, idx, e.lenOf(fr, s, st), "string index")
-		return TopInt("byte of string")
+		b := RangeInt(0, 255)
+		b.SB = &StrByte{S: s, Idx: idx}
+		return b
 	}
 	var val AV = e.topOf(x.Type(), "map value")
 	okv := BoolV{C: &Cond{Kind: "lookupok", A: m, B: k, Site: x}}
@@ -3263,7 +3407,15 @@ func (e *Eval) storeElem(fr *frame, x *ssa.Store, el *ElemRef, v AV, st State) {
 		e.setContent(fr, st, b.O, topContent(b.O, "element store"))
 	case BytesV:
 		if b.Obj != nil {
-			e.setContent(fr, st, b.Obj, BufC{BytesV{LenKnown: b.LenKnown, Len: b.Len, Src: "⊤: element written directly"}})
+			cur, _ := st[b.Obj].(BufC)
+			nb := BytesV{LenKnown: b.LenKnown, Len: b.Len, LenSym: cur.B.LenSym, Src: "⊤: element written directly"}
+			// buf[i] = s[i] in a loop, the first and only store to buf so far, executed in every
+			// iteration: remembered; the loop summary decides whether it is a whole copy
+			if iv, ok := v.(IntV); ok && iv.SB != nil && fr.loop != nil && (cur.B.Src == "zero" || cur.B.Src == "⊤: loop head (was zero)") && cur.B.CopyOf == nil &&
+				iv.SB.Idx.Kind == ikLin && el.Idx.Kind == ikLin && iv.SB.Idx.L == el.Idx.L && everyIteration(x.Block(), fr.loop) {
+				nb.CopyOf = iv.SB
+			}
+			e.setContent(fr, st, b.Obj, BufC{nb})
 		}
 		if b.Obj == nil && b.WinOf == nil && b.Param == nil {
 			// a byte slice the evaluation holds only as a value: whoever reads it later would not see this write
